@@ -81,7 +81,7 @@ AddCleanup == Room /\ \E id \in 1..MaxIds, rz \in {0, 1}, a \in ArgModes, l \in 
                  /\ Step(OpAddCleanup(id, rz, a, l))
                  /\ rzOf' = [rzOf EXCEPT ![id] = rz + 1]
 UseFixture == Room /\ WithFixtures /\
-                 \/ \E id \in 1..MaxIds, rz \in {0, 1}, kind \in {1, 4} :
+                 \/ \E id \in 1..MaxIds, rz \in {0, 1}, kind \in {1, 4, 5} :
                        /\ FreshOk(id) /\ rzOf[id] = 0       \* a generator fixture is a fresh callable
                        /\ Step(OpUseFixture(kind, id, rz))
                        /\ rzOf' = [rzOf EXCEPT ![id] = rz + 1]
